@@ -48,6 +48,28 @@ Definition derive_pf (k : case_C17) : option (option exn * list (result str)) :=
            end
   end.
 
+(* The items the separator clause speaks about, computed from the state point: every dotted key and the
+   SPELLING of every leaf value — a string as it is, any other value through str() (ints, None, booleans
+   directly; floats and lists through the repr / str(tuple) tables).  "Inputs it cannot represent" = an
+   item whose spelling contains the separator; this follows the property text (and, since f6f949e, the
+   implementation), it is no longer the scope of the implementation's guard handed over by the harness. *)
+Definition spelled (o : SV.Export.oracle) (v : json) : str :=
+  match SV.Export.py_text o true v with SV.Export.ROk s => s | _ => [] end.
+Definition sp_items (o : SV.Export.oracle) (sp : json) : list str :=
+  flat_map (fun ks => SV.Export.key_str ks ::
+                      match SV.Export.get_path sp ks with Some v => [spelled o v] | None => [] end)
+           (filter (fun ks => negb (is_nil ks)) (SV.Export.dkeys sp [])).
+
+Fixpoint set_items (o : SV.Export.oracle) (js : list job) (xs : list SV.Export.job) : list job :=
+  match js with
+  | [] => []
+  | j :: js' =>
+      {| j_dir := j_dir j;
+         j_items := match xs with x :: _ => sp_items o (SV.Export.j_sp x) | [] => j_items j end;
+         j_pf := j_pf j |}
+      :: set_items o js' (match xs with _ :: t => t | [] => [] end)
+  end.
+
 Fixpoint set_pfs (js : list job) (pfs : list (result str)) : list job :=
   match js with
   | [] => []
@@ -59,10 +81,11 @@ Fixpoint set_pfs (js : list job) (pfs : list (result str)) : list job :=
 
 Definition fill_call (k : case_C17) : call :=
   let c := k_call k in
+  let js := set_items (k_xoracle k) (c_jobs c) (k_xjobs k) in
   match derive_pf k with
-  | None => c
+  | None => {| c_cwd := c_cwd c; c_prefix := c_prefix c; c_jobs := js; c_pfmake := c_pfmake c; c_all := c_all c |}
   | Some (pm, pfs) =>
-      {| c_cwd := c_cwd c; c_prefix := c_prefix c; c_jobs := set_pfs (c_jobs c) pfs;
+      {| c_cwd := c_cwd c; c_prefix := c_prefix c; c_jobs := set_pfs js pfs;
          c_pfmake := pm; c_all := c_all c |}
   end.
 
